@@ -419,7 +419,12 @@ fn two_pow<F: Field>() -> TwoPow<F> {
         if c.legendre().is_qnr() { break c; }
         i += 1;
     };
-    let z = g.pow(&tl);
+    // when the field itself runs Tonelli–Shanks, take its own `z`, so that the exponents chosen below are
+    // discrete logarithms with respect to the base the algorithm uses (they fix the round pattern)
+    let z = match F::SQRT_PRECOMP {
+        Some(SqrtPrecomputation::TonelliShanks { two_adicity, quadratic_nonresidue_to_trace, .. }) if two_adicity == s => quadratic_nonresidue_to_trace,
+        _ => g.pow(&tl),
+    };
     assert!(pow2k(z, s - 1) == -F::one(), "2^s-th root of unity");
     let t0 = tl[0];
     let mut inv = 1u64;
@@ -463,7 +468,8 @@ fn structured<F: Field>(rng: &mut Rng, level: usize) -> Vec<F> {
         let mut v = vec![z0; n]; v[i] = rand_prime(rng); out.push(from_coords(v));
         if n > 1 { let mut v: Vec<_> = (0..n).map(|_| rand_prime(rng)).collect(); v[i] = z0; out.push(from_coords(v)); }
     }
-    // 2-power torsion: Tonelli–Shanks round patterns.  With b = x^t = z^e the loop runs popcount(e) rounds.
+    // 2-power torsion: Tonelli–Shanks round patterns.  With b = x^t = z^e the loop runs popcount(−e mod 2^s) rounds
+    // (b·∏ z^(2^(s−k_i)) = 1), the i-th round with j = v − k_i.
     let tp = two_pow::<F>();
     let s = tp.s;
     let odd = |rng: &mut Rng| pow2k(rand_elem::<F>(rng), s); // element of odd order
@@ -473,11 +479,13 @@ fn structured<F: Field>(rng: &mut Rng, level: usize) -> Vec<F> {
         if level == 0 && !is_ts && !(k <= 1 || k + 1 >= s) { continue; }
         let w = pow2k(tp.z, s - k); // order exactly 2^k
         if level > 0 { out.push(w); out.push(w * odd(rng)); }
-        // b = z^(2^(s-k)): a single round with j = v − k (k < s), or the non-residue exit (k = s)
+        // b = z^(2^(s−k)): k rounds (k < s) or the non-residue exit (k = s); b = z^(−2^(s−k)): a single round with j = s − k
         let e = tp.tinv.wrapping_mul(1u64 << (s - k).min(63)) & mask;
         if s - k < 64 { out.push(tp.z.pow([e]) * odd(rng)); }
+        let e = tp.tinv.wrapping_mul((1u64 << (s - k).min(63)).wrapping_neg()) & mask;
+        if s - k < 64 && level > 0 { out.push(tp.z.pow([e]) * odd(rng)); }
     }
-    // b = z^(−2): s − 1 rounds (the maximum); b = z^(−1): non-residue found after the longest inner loop
+    // b = z^2: s − 1 rounds (the maximum); b = z^(±1): non-residue found after the longest inner loop
     for e0 in [mask - 1, mask, mask - 3, mask / 3 * 2, 2] {
         let e = tp.tinv.wrapping_mul(e0) & mask;
         if level > 0 { out.push(tp.z.pow([e])); }
